@@ -225,6 +225,14 @@ def check_record(res, rec, flavour, upd):
     rows = check_leg1(res, case, rec, flavour, upd, text)
     if rows is None:
         return
+    # single-strand gene models have no child on an improper strand: nothing is there to force or to skip, so the optional
+    # force_strand=False writes the very same file
+    o2 = lib.outcome(IO.export, rec, flavour, upd, force_strand=False)
+    res.trans()
+    if o2[0] != "ok" or o2[1] != text:
+        got2 = IO.read_rows(o2[1])[2] if o2[0] == "ok" else o2[1]
+        res.deviation("collection_to_genbank", dict(case, force_strand=False), [r["type"] for r in got2] if isinstance(got2, list) else got2,
+                      [r["type"] for r in rows], sig="force-strand-false-differs")
     sorted_ok = W.rows_position_sorted(rows)
     tags_ok = W.gene_tags_unique(rows)
     premise = sorted_ok and tags_ok
